@@ -5,7 +5,7 @@ use crate::shared::storage_header::{BinaryHeader, FileKind};
 use std::collections::HashMap;
 use std::fs::OpenOptions;
 use std::io::{Read, Write};
-use std::path::Path;
+use std::path::{Path, PathBuf};
 use std::sync::Arc;
 use tokio::sync::RwLock;
 
@@ -18,31 +18,49 @@ pub struct EnumBitmapIndex {
 
 impl EnumBitmapIndex {
     pub fn save(&self, path: &Path) -> std::io::Result<()> {
-        let mut f = OpenOptions::new().create(true).write(true).open(path)?;
+        // Readers may open the segment while it is still being flushed: write the complete
+        // index to a temporary file and rename it, so the final path is either absent or complete.
+        let mut buf: Vec<u8> = Vec::new();
 
-        BinaryHeader::new(FileKind::EnumBitmap.magic(), 1, 0).write_to(&mut f)?;
+        BinaryHeader::new(FileKind::EnumBitmap.magic(), 1, 0).write_to(&mut buf)?;
 
         // variants
-        f.write_all(&(self.variants.len() as u16).to_le_bytes())?;
+        buf.extend_from_slice(&(self.variants.len() as u16).to_le_bytes());
         for v in &self.variants {
             let bytes = v.as_bytes();
-            f.write_all(&(bytes.len() as u16).to_le_bytes())?;
-            f.write_all(bytes)?;
+            buf.extend_from_slice(&(bytes.len() as u16).to_le_bytes());
+            buf.extend_from_slice(bytes);
         }
 
         // rows_per_zone
-        f.write_all(&self.rows_per_zone.to_le_bytes())?;
+        buf.extend_from_slice(&self.rows_per_zone.to_le_bytes());
 
         // zones
         for (zone_id, bitsets) in &self.zone_bitmaps {
-            f.write_all(&zone_id.to_le_bytes())?;
+            buf.extend_from_slice(&zone_id.to_le_bytes());
             // each variant bitmap payload length u32 then bytes
-            f.write_all(&(bitsets.len() as u16).to_le_bytes())?;
+            buf.extend_from_slice(&(bitsets.len() as u16).to_le_bytes());
             for bits in bitsets {
-                f.write_all(&(bits.len() as u32).to_le_bytes())?;
-                f.write_all(bits)?;
+                buf.extend_from_slice(&(bits.len() as u32).to_le_bytes());
+                buf.extend_from_slice(bits);
             }
         }
+
+        // Temporary sibling of `path` (same directory, so the final rename is atomic).
+        let mut tmp_name = path.as_os_str().to_os_string();
+        tmp_name.push(".tmp");
+        let tmp_path = PathBuf::from(tmp_name);
+
+        let mut f = OpenOptions::new()
+            .create(true)
+            .write(true)
+            .truncate(true)
+            .open(&tmp_path)?;
+        f.write_all(&buf)?;
+        f.flush()?;
+        f.sync_all()?;
+        drop(f);
+        std::fs::rename(&tmp_path, path)?;
         Ok(())
     }
 
